@@ -34,6 +34,8 @@ def run(ctx):
     R.rule_R2(ctx, funcs)
     R.rule_R4(ctx, typer, funcs)
     R.rule_R6_string_compare(ctx, typer, funcs)
+    R.rule_R7_parts_unmodified(ctx, typer)
+    R.rule_G2_all_caches(ctx, typer)
     ctx.floor("R6", 2)
     R.rule_G4_handlers(ctx, funcs)
     R.rule_G6_no_extra_pruning(ctx, typer)
